@@ -153,6 +153,28 @@ func genC18(t *rapid.T) C18Case {
 			}
 			fields = append(fields, f)
 		}
+		// a field of the embedding struct may carry the JSON name of a promoted field: encoding/json lets the shallower
+		// one win, whatever the declaration order
+		for _, f := range append([]C18Field(nil), fields...) {
+			if !f.Embedded || !rapid.Bool().Draw(t, "shadow") {
+				continue
+			}
+			idx := f.T.Struct
+			if f.T.K == "ptr" {
+				idx = f.T.Elem.Struct
+			}
+			for _, ef := range c.Structs[idx] {
+				if ef.JSONName == "" || ef.Dash || ef.NoTag || ef.Unexported || ef.Embedded {
+					continue
+				}
+				other := "string"
+				if ef.T.K == "string" {
+					other = "int"
+				}
+				fields = append(fields, C18Field{T: C18Type{K: other}, JSONName: ef.JSONName})
+				break
+			}
+		}
 		c.Structs = append(c.Structs, fields)
 	}
 	return c
